@@ -139,7 +139,7 @@ def run_F(p):
         df["pay"] = ["p%d" % i if i % 3 else None for i in range(n)]
         df["num"] = [float(i) * 1.5 for i in range(n)]
         path = os.path.join(d, "t.parquet")
-        with wr.PageCfg(ver, wr.tiny_page_size(df[["x"]], 1) if tiny else None):
+        with wr.PageCfg(ver, wr.tiny_page_size(df, 1) if tiny else None):
             fastparquet.write(path, df, row_group_offsets=offs, write_index=False, compression=codec, stats=True)
         pf = fastparquet.ParquetFile(path)
         cells = O.series_to_list(df["x"])
@@ -165,6 +165,11 @@ def run_F(p):
                     a.nontriv += 1
                 try:
                     out = pf.to_pandas(filters=filt, row_filter=True, columns=cols)
+                except TypeError as e:
+                    if kind == "cat" and "Unordered Categoricals" in str(e):
+                        continue      # ordering comparison on an unordered categorical: refusing is a valid answer
+                    a.bad("read_raised", "%s: %s: %s" % (what, type(e).__name__, str(e)[:150]), exc=type(e).__name__)
+                    continue
                 except Exception as e:
                     a.bad("read_raised", "%s: %s: %s" % (what, type(e).__name__, str(e)[:150]), exc=type(e).__name__)
                     continue
@@ -172,8 +177,13 @@ def run_F(p):
             try:
                 cnt = int(pf.count(filters=filt, row_filter=True))
                 if not (len(must) <= cnt <= len(must) + len(maybe)):
-                    a.ctx = {"shape": shape if len(groups) == 1 else "or", "via": "count"}
+                    a.ctx = {"shape": shape if len(groups) == 1 else "or", "via": "count",
+                             "ops": ",".join(sorted({c[1] for g in groups for c in g}))}
                     a.bad("wrong_count", "%s rgs=%r filter=%r: count()=%d, %d rows qualify" % (kind, contents, filt, cnt, len(must)))
+            except TypeError as e:
+                if not (kind == "cat" and "Unordered Categoricals" in str(e)):
+                    a.ctx = {"via": "count"}
+                    a.bad("read_raised", "count: %s" % e, exc="TypeError")
             except Exception as e:
                 a.ctx = {"via": "count"}
                 a.bad("read_raised", "count(filters=%r, row_filter=True): %s: %s" % (filt, type(e).__name__, str(e)[:100]), exc=type(e).__name__)
@@ -201,7 +211,7 @@ def run_M(p):
     df = pd.DataFrame({"rid": rid, "pay": pay, "f": [0.5, None, 2.5, 3.5, None, 5.5]})
     d = scratch()
     path = os.path.join(d, "t.parquet")
-    with wr.PageCfg(ver, wr.tiny_page_size(df[["rid"]], 1) if tiny else None):
+    with wr.PageCfg(ver, wr.tiny_page_size(df, 1) if tiny else None):
         fastparquet.write(path, df, row_group_offsets=[0, 3], write_index=False)
     pf = fastparquet.ParquetFile(path)
     table = {c: dict(zip(rid, O.series_to_list(df[c]))) for c in df.columns}
